@@ -77,6 +77,7 @@ def all_mutants(with_anc):
         ms.append({"kind": "lengthen", "attr": a})
     ms.append({"kind": "dup_name"})
     ms.append({"kind": "permute_defaults"})
+    ms.append({"kind": "permute_defaults_late"})
     ms.append({"kind": "fewer_defaults"})
     return ms
 
@@ -91,7 +92,7 @@ def expected_error(mutant):
     if k == "delete":
         return ModelIncompleteError
     if k in ("shorten", "lengthen", "dup_name", "permute_defaults",
-             "fewer_defaults"):
+             "permute_defaults_late", "fewer_defaults"):
         return ModelImplementationError
     if k == "more_defaults":
         # more defaults than keys: keys are a prefix of the defaults, which
@@ -106,6 +107,10 @@ def render(spec):
     keys, names, units = list(KEYS), list(NAMES), list(UNITS)
     dlines = list(DEFAULT_LINES.values())
     args = "delta, E, R, nu, contact_point=0, baseline=0"
+    if spec.get("argswap"):
+        # legal (a warning only): the model function lists its parameters
+        # in another order than parameter_keys; it is called by keyword
+        args = "delta, R, E, nu, contact_point=0, baseline=0"
     if mut:
         k = mut["kind"]
         if k == "shorten":
@@ -120,6 +125,8 @@ def render(spec):
             names[1] = names[0]
         elif k == "permute_defaults":
             dlines[0], dlines[1] = dlines[1], dlines[0]
+        elif k == "permute_defaults_late":
+            dlines[3], dlines[4] = dlines[4], dlines[3]
         elif k == "fewer_defaults":
             dlines.pop()
         elif k == "more_defaults":
@@ -136,14 +143,18 @@ def render(spec):
     anc = ""
     if spec.get("anc") is not None:
         a = spec["anc"]
-        akeys = ["E", "anc_x"] + (["R"] if "R" in a else [])
+        akeys = ["E", "anc_x"] + (["R"] if "R" in a else []) + (
+            ["contact_point"] if "contact_point" in a else [])
         body = ", ".join(f"{k!r}: float({str(a[k])!r})" for k in akeys)
         anc = ("def compute_ancillaries(idnt):\n"
                f"    return {{{body}}}\n\n")
         attrs["parameter_anc_keys"] = repr(akeys)
         attrs["parameter_anc_names"] = repr(
-            ["anc modulus", "anc x", "anc radius"][:len(akeys)])
-        attrs["parameter_anc_units"] = repr(["Pa", "m", "m"][:len(akeys)])
+            [{"E": "anc modulus", "anc_x": "anc x", "R": "anc radius",
+              "contact_point": "anc contact"}[k] for k in akeys])
+        attrs["parameter_anc_units"] = repr(
+            [{"E": "Pa", "anc_x": "m", "R": "m", "contact_point": "m"}[k]
+             for k in akeys])
     tail = ""
     deleted = None
     if mut and mut["kind"] == "delete":
@@ -234,6 +245,8 @@ class RegistryEngine:
             spec = {"key": rng.choice(keys),
                     "scale": rng.choice([1.0, 1.0, 2.0, 0.5]),
                     "own_wrappers": rng.random() < 0.3}
+            if rng.random() < 0.3:
+                spec["argswap"] = True
             if rng.random() < 0.5 or (
                     mutant and mutant.get("attr") in ANC_TRIO):
                 spec["anc"] = {"E": rng.choice([1234.5, float("nan"), 50.0]),
@@ -242,6 +255,11 @@ class RegistryEngine:
                     # an ancillary that matches a parameter which is fixed
                     # by default
                     spec["anc"]["R"] = rng.choice([4e-6, float("nan")])
+                if rng.random() < 0.4:
+                    # ... and one for the contact point, which the library
+                    # also guesses from the data
+                    spec["anc"]["contact_point"] = rng.choice(
+                        [1.23e-7, float("nan")])
             if mutant:
                 spec["mutant"] = mutant
             return spec
@@ -747,7 +765,9 @@ class RegistryEngine:
                                   "max_indent differs", i)
         anc_keys = md.get_anc_parm_keys()
         want = ["max_indent"] + ((["E", "anc_x"] + (
-            ["R"] if "R" in spec["anc"] else [])) if spec.get("anc") else [])
+            ["R"] if "R" in spec["anc"] else []) + (
+            ["contact_point"] if "contact_point" in spec["anc"] else []))
+            if spec.get("anc") else [])
         if list(anc_keys) != want:
             return make_violation(
                 self.prop, "M4", "ancillary-keys", feats,
@@ -803,6 +823,14 @@ class RegistryEngine:
         want_R = 10e-6
         if anc and "R" in anc and anc["R"] == anc["R"]:
             want_R = anc["R"]
+        if anc and "contact_point" in anc and \
+                anc["contact_point"] == anc["contact_point"]:
+            if p["contact_point"].value != anc["contact_point"]:
+                return make_violation(
+                    self.prop, "M5", "seed-contact_point",
+                    dict(feats, anc=str(anc)),
+                    f"initial contact point is {p['contact_point'].value}, "
+                    f"the model's ancillary says {anc['contact_point']}", i)
         for k, dv in (("R", want_R), ("nu", .5), ("baseline", 0)):
             if p[k].value != dv:
                 return make_violation(
